@@ -148,7 +148,7 @@ pub fn fill_kind(kind: &str, w: &[f32], with_frags: bool) -> String {
 /// Screen-space triangle generator shared by C04/C05. Returns three (x, y) pairs and a mode tag.
 pub fn gen_tri_xy(rng: &mut Rng) -> ([(f32, f32); 3], &'static str) {
     let size = *rng.pick(&[4i64, 8, 16, 32]);
-    let mode = rng.below(14);
+    let mode = rng.below(15);
     let mut p = [(0f32, 0f32); 3];
     let tag;
     match mode {
@@ -233,6 +233,19 @@ pub fn gen_tri_xy(rng: &mut Rng) -> ([(f32, f32); 3], &'static str) {
                     *v = if rng.chance(1, 4) { rng.f32_in(0.0, size as f32) } else { f32::from_bits((k.to_bits() as i32 + d) as u32) };
                 }
                 *q = (c[0], c[1]);
+            }
+        }
+        14 => {
+            tag = "tiny-around-centre";
+            // a triangle 0.005..0.5 px across with a pixel centre well inside it: the smallest things
+            // that must still produce a fragment (an absolute area / size cut-off shows only here)
+            let c = (rng.range(0, size) as f32 + 0.5, rng.range(0, size) as f32 + 0.5);
+            let r = 10f32.powf(rng.f32_in(-2.3, -0.3));
+            let o = (c.0 + rng.f32_in(-0.2, 0.2) * r, c.1 + rng.f32_in(-0.2, 0.2) * r);
+            let a0 = rng.f32_in(0.0, 6.2831855);
+            for (i, q) in p.iter_mut().enumerate() {
+                let a = a0 + 2.0943952 * i as f32 + rng.f32_in(-0.3, 0.3);
+                *q = ((o.0 + r * a.cos()).max(0.0), (o.1 + r * a.sin()).max(0.0));
             }
         }
         8 => {
